@@ -289,8 +289,8 @@ fn leaf(i: usize) -> V {
 const LEAVES_REDUCED: [usize; 7] = [0, 4, 12, 15, 18, 21, 17];
 const LEAVES_TINY: [usize; 3] = [4, 15, 18];
 const KEYS_TINY: [usize; 2] = [1, 17];
-const KEYS: usize = 24;
-fn key(i: usize) -> V {
+pub const KEYS: usize = 24;
+pub fn key(i: usize) -> V {
     match i {
         0 => V::Str("k".into()),
         1 => V::Str("q\"\t\u{e9}".into()),
